@@ -1,6 +1,7 @@
 package exec
 
 import (
+	"errors"
 	"math"
 	"strconv"
 	"strings"
@@ -124,7 +125,8 @@ func getStringNumber(str string) float64 {
 
 	ret, err := strconv.ParseFloat(str, 64)
 
-	if err != nil {
+	// A numeral beyond the range of a double is rounded to an infinity.
+	if err != nil && !errors.Is(err, strconv.ErrRange) {
 		return math.NaN()
 	}
 
